@@ -150,7 +150,7 @@ class Query:
     def __init__(self, name, harness, tus=(), env=(), defs=None, unwind=None,
                  unwindset=(), flags=(), timeout=120, mem_gb=6, tier="quick",
                  params=None, group=None, expect_fail=(), cdefs=(), solver=None,
-                 leak=False, nowitness=False, objbits=None):
+                 leak=False, nowitness=False, objbits=None, unwind_rules=()):
         self.name = name
         self.harness = harness          # relative to /verif/harness
         self.tus = list(tus)            # relative to /repo/src
@@ -170,6 +170,9 @@ class Query:
         self.leak = leak
         self.nowitness = nowitness
         self.objbits = objbits
+        # [(function regex, regex on the source text of the loop head (3 lines), bound)]:
+        # resolved to CBMC loop ids after linking, so that they survive edits of /repo
+        self.unwind_rules = list(unwind_rules)
 
 
 class Result:
@@ -286,6 +289,40 @@ class Ctx:
             self._mem_used -= gb
             self._memlock.notify_all()
 
+    def resolve_unwind_rules(self, q, gb):
+        if not q.unwind_rules:
+            return []
+        r = subprocess.run(["goto-instrument", "--show-loops", "--json-ui", gb], stdout=subprocess.PIPE,
+                           stderr=subprocess.DEVNULL, text=True)
+        out = []
+        try:
+            msgs = json.loads(r.stdout)
+        except Exception:
+            return out
+        cache = {}
+        for m in msgs:
+            if not (isinstance(m, dict) and "loops" in m):
+                continue
+            for l in m["loops"]:
+                sl = l.get("sourceLocation", {})
+                fn, fl, ln = sl.get("function", ""), sl.get("file", ""), sl.get("line")
+                if not ln:
+                    continue
+                if fl not in cache:
+                    try:
+                        with open(fl if os.path.isabs(fl) else os.path.join(sl.get("workingDirectory", ""), fl), errors="replace") as f:
+                            cache[fl] = f.read().split("\n")
+                    except Exception:
+                        cache[fl] = []
+                lines = cache[fl]
+                i = int(ln) - 1
+                text = " ".join(lines[max(0, i - 1):i + 3])
+                for frx, trx, bound in q.unwind_rules:
+                    if re.search(frx, fn) and re.search(trx, text):
+                        out.append("%s:%d" % (l["name"], bound))
+                        break
+        return out
+
     def cbmc_cmd(self, q, gb, extra=()):
         cmd = ["cbmc", gb, "--function", "harness", "--json-ui", "--verbosity", "8",
                "--unwinding-assertions", "--drop-unused-functions",
@@ -293,8 +330,9 @@ class Ctx:
                "--undefined-shift-check", "--conversion-check" if False else "--div-by-zero-check"]
         if q.unwind is not None:
             cmd += ["--unwind", str(q.unwind)]
-        if q.unwindset:
-            cmd += ["--unwindset", ",".join(q.unwindset)]
+        uw = list(q.unwindset) + self.resolve_unwind_rules(q, gb)
+        if uw:
+            cmd += ["--unwindset", ",".join(uw)]
         if q.leak:
             cmd += ["--memory-leak-check"]
         if q.objbits:
@@ -451,6 +489,17 @@ class Ctx:
               [os.path.join(VERIF, "vh", "vh_native.c")] + \
               self._cflags(self.qdefs(q) + list(q.cdefs)) + ["-lpthread"]
         r = subprocess.run(cmd, stdout=subprocess.PIPE, stderr=subprocess.STDOUT, text=True)
+        if r.returncode != 0:
+            # functions the harness never calls but the included unit references:
+            # give them aborting stubs and link again
+            names = sorted(set(re.findall(r"undefined reference to `([A-Za-z0-9_]+)'", r.stdout)))
+            if names:
+                stub = out + "-stubs.c"
+                with open(stub, "w") as f:
+                    f.write("#include <stdio.h>\n#include <stdlib.h>\n")
+                    for n in names:
+                        f.write('void %s(void) { fprintf(stderr, "REPLAY-ERROR: unmodelled function %s called\\n"); exit(3); }\n' % (n, n))
+                r = subprocess.run(cmd + [stub], stdout=subprocess.PIPE, stderr=subprocess.STDOUT, text=True)
         if r.returncode != 0:
             raise RuntimeError("native build failed:\n" + r.stdout[-3000:])
         return out
